@@ -149,7 +149,7 @@ theorem logon_reset_received (s : Sess) (m : InMsg) (hi : s.cfg.initiator = fals
     rw [← hs1]; split <;> exact ⟨rfl, rfl, rfl, rfl⟩
   obtain ⟨s2, hs2⟩ : ∃ x, x = s1.emit (cbObs s1 m) := ⟨_, rfl⟩
   have a2 : s2.cfg = s.cfg ∧ s2.st = s.st ∧ s2.sentReset = s.sentReset ∧ s2.out = s.out := by rw [hs2]; exact a1
-  have e1 : verifyAppImpl s1 m = (s2, none) := by rw [verifyAppImpl_pass s1 m hg.valid, hv, hs2]
+  have e1 : verifyAppImpl s1 m = (s2, none) := by rw [verifyAppImpl_pass s1 m (by rw [a1.1]; exact hg.valid), hv, hs2]
   -- stage 2: the reset
   have hreset : ((if s2.cfg.initiator = true then false else s2.cfg.resetOnLogon) || logonResetFlag m && !s2.sentReset) = true := by
     rw [hf, a2.2.2.1, hsr]; simp
